@@ -29,7 +29,7 @@ def model_checks(ctx):
         r = vlib.run_tlc(ctx, FAM, mod, mod + ".cfg")
         ctx.add_tlc(r)
     for mod, defects in (("XStreamConn", ("NoDelete", "ResetKeepsEntry", "ArrivalOrder")),
-                         ("XHop", ("HijackIdFromFrame", "NoDelete", "ArrivalOrder", "RecycleWhileReferenced", "BodyAliasesReadBuffer"))):
+                         ("XHop", ("HijackIdFromFrame", "NoDelete", "ArrivalOrder", "RecycleWhileReferenced", "BodyAliasesReadBuffer", "LocalReplyKeepsOldBody"))):
         for d in defects:
             cfg = "%s_defect_%s.cfg" % (mod, d)
             if vlib.run_tlc(ctx, FAM, mod, cfg, expect_ok=False)["ok"]:
@@ -54,7 +54,7 @@ def features(case):
             f.add("tmo"); late.add(s["r"])
         if s["op"] == "ans" and s["r"] in late:
             f.add("late")
-        if s["op"] in ("dup", "ghost", "close", "race", "racegone", "inter"):
+        if s["op"] in ("dup", "ghost", "close", "race", "racegone", "inter", "uerr"):
             f.add(s["op"])
     return f
 
@@ -120,13 +120,15 @@ def run(ctx):
     if not q:
         h6 = emit(ctx, "XHop", "XHop_emit_thorough.cfg")
         deep = len(h6)
-        hall6 = [json.loads(x) for x in rng.sample(h6, min(len(h6), 12000))]
+        hall6 = [json.loads(x) for x in rng.sample(h6, min(len(h6), 6000))]
     if q:
         # classes that are always represented (VERIF_SEED sample of each), plus a sample of the rest:
         #  A colliding id meets a proxy-made error reply or a late/duplicate answer;  B an answer races the end of its request;
-        #  C decode A / read B / encode A on the re-encoding route
+        #  C decode A / read B / encode A on the re-encoding route;  D an upstream error answer is retried (retry_on route)
         def cls(c):
             f = features(c)
+            if "uerr" in f:
+                return "D"
             if "inter" in f and c.get("reenc"):
                 return "C"
             if "race" in f or "racegone" in f:
@@ -138,7 +140,7 @@ def run(ctx):
         for c in hall:
             by.setdefault(cls(c), []).append(c)
         hcases = []
-        for k, n in (("A", 500), ("B", 700), ("C", 500), ("rest", 700)):
+        for k, n in (("A", 400), ("B", 600), ("C", 450), ("D", 450), ("rest", 600)):
             hcases += rng.sample(by.get(k, []), min(n, len(by.get(k, []))))
     else:
         hcases = hall + hall6
@@ -190,10 +192,13 @@ def run(ctx):
     ctx.cov["hop"] = dict(schedules_enumerated=len(hall), schedules_enumerated_depth6=deep, schedules_run=len(runs), id_collisions_realised=coll,
                           schedules_with_unrealisable_step=div, response_vs_timeout_races_forced=sum(r.get("races", 0) for r in runs),
                           decode_read_encode_interleavings_forced=sum(r.get("inters", 0) for r in runs),
-                          schedules_on_reencoding_route=sum(1 for r in runs if r.get("reenc")), skipped_after_lost_waits=skipped, lost_waits=lost)
+                          schedules_on_reencoding_route=sum(1 for r in runs if r.get("reenc")),
+                          upstream_error_answers_retried=sum(r.get("retried_error_answers", 0) for r in runs),
+                          schedules_on_retry_route=sum(1 for r in runs if r.get("svc") == "c02r"), skipped_after_lost_waits=skipped, lost_waits=lost)
     ctx.cov["storm"] = dict(rounds=len(storms), requests=sum(r.get("requests", 0) for r in storms),
                             error_replies=sum(r.get("errors", 0) for r in storms),
-                            id_collisions=sum(r.get("collisions", 0) for r in storms), connections_on_reencoding_route=sum(r.get("reenc_conns", 0) for r in storms), upstream_closes=sum(r.get("closed", 0) for r in storms))
+                            id_collisions=sum(r.get("collisions", 0) for r in storms), connections_on_reencoding_route=sum(r.get("reenc_conns", 0) for r in storms),
+                            error_answers_retried=sum(r.get("error_answers_retried", 0) for r in storms), upstream_closes=sum(r.get("closed", 0) for r in storms))
     h1s = [r for r in pres if not r.get("summary")]
     ctx.cov["h1"] = dict(rounds=len(h1s), requests=sum(r.get("requests", 0) for r in h1s), error_replies=sum(r.get("errors", 0) for r in h1s),
                          broken_connections=sum(r.get("noreply", 0) for r in h1s))
@@ -203,9 +208,9 @@ def run(ctx):
     ctx.cov["distinct_nontrivial"] = len(tcases) + len([c for c in hcases if features(c)])
     ctx.cov["exhaustive"] = not q
     ctx.cov["rule"] = ("table: every history of <=%d ops (new/resp for any waiter's latest id/ghost id/reset/connreset) over 3 waiters, id counter "
-                       "seeded at 2^32-2, replayed into the real bolt client stream connection; hop: every schedule of 5 steps (thorough: plus a VERIF_SEED sample of 12000 of the 6-step schedules) over 3 requests "
-                       "on <=2 downstream connections (send with fresh or colliding id and long or short timeout / ans / dup / ghost / tmo / race, racegone = answer held in its handler while the timeout / the client's disconnect ends the request / inter = answer A decoded, answer B read and delivered on the same upstream connection, then A encoded / close), "
-                       "each on the plain route and on the route that adds headers both ways (proxy re-encodes from fields) "
+                       "seeded at 2^32-2, replayed into the real bolt client stream connection; hop: every schedule of 5 steps (thorough: plus a VERIF_SEED sample of 6000 of the 6-step schedules) over 3 requests "
+                       "on <=2 downstream connections (send with fresh or colliding id and long or short timeout / ans / dup / ghost / tmo / race, racegone = answer held in its handler while the timeout / the client's disconnect ends the request / inter = answer A decoded, answer B read and delivered on the same upstream connection, then A encoded / uerr = the upstream answers the current attempt with an error status and a body, which a retry_on route retries / close), "
+                       "each on the plain route, on the route that adds headers both ways (proxy re-encodes from fields) and on the retry_on route "
                        "from XHop.tla (%d), quick = VERIF_SEED samples of the collision+timeout+late/dup, answer-races-end and decode/read/encode classes and of the rest; storm: VERIF_SEED-randomised "
                        "pipelined clients on shared connections; h1: sequential HTTP/1.1 clients over pooled ping-pong upstream connections, 30%% of the "
                        "requests time out in the proxy before the upstream answers" % (5 if q else 6, len(hall)))
